@@ -12,6 +12,8 @@ R17.5  counting: notify flips exactly the Waiting nodes it counts, signals each 
 R17.6  the map/list primitives the protocol relies on keep the bucket chains and wait lists intact: bounded shape
        analysis (chains of 1-3 colliding entries, every removal position, lookups, insertion) by partial evaluation
        on concrete heap shapes
+R17.7  deadline arithmetic: wasmCondRelativeWait evaluated on a grid containing both sides of every carry point - the timespec
+       given to pthread_cond_timedwait is normalised and equals now + timeout; ETIMEDOUT maps to "timed out"
 """
 import re
 
@@ -386,18 +388,78 @@ def run(chk):
         'which the lock-region, pairing, ordering and counting rules are decided. These are the structural premises of the protocol; '
         'absence of lost wake-ups over all interleavings is a model-checking question and is not decided here.' % MAX_WAITS)
     chk.assumptions = ['pthread mutex/condvar semantics', 'map/list primitives behave as their names say (bodies not analysed here)',
-                       'timeout arithmetic not decided']
+                       'timeout arithmetic decided on a break-point grid (R17.7), for the pthreads configuration']
     check_templates(chk)
     tu = futex_tu(chk)
     nw = check_wait(chk, tu)
     nn = check_notify(chk, tu)
     check_shapes(chk)
+    nd = check_deadline(chk, runtime.header('le'))
+    chk.require(nd >= 100, 'deadline arithmetic evaluated on only %d grid points' % nd)
     chk.extra['wait_paths'] = nw
     chk.extra['notify_paths'] = nn
     chk.floor('R17.1', 12)
     chk.floor('R17.2', 20)
     chk.floor('R17.4', 10)
     chk.floor('R17.5', 20)
+
+
+# ---- R17.7: deadline arithmetic of the timed wait ---------------------------------------------------------
+
+def check_deadline(chk, tu):
+    """wasmCondRelativeWait (pthreads) turns the relative timeout into an absolute timespec.  The computation is piecewise affine in
+    (now.tv_nsec, timeout) with break points only where the nanosecond sum crosses a second, so it is evaluated on a grid that
+    contains both sides of every break point; the timespec handed to pthread_cond_timedwait must be normalised (0 <= tv_nsec < 10^9)
+    and denote exactly now + timeout, and the result must be `did not time out`"""
+    fn = 'wasmCondRelativeWait'
+    if fn not in tu.functions:
+        chk.note('R17.7: %s is not defined in this configuration (no pthreads condition variables)' % fn)
+        return 0
+    chk.fn(fn)
+    NS = 10 ** 9
+    site = fn + ':deadline'
+    n = 0
+    etimedout = 110
+    for S0 in (1700000000,):
+        for N0 in (0, 1, 400000000, 999999998, 999999999):
+            for tsec in (0, 1, 5):
+                for tns in (0, 1, 600000000, 999999998, 999999999):
+                    timeout = tsec * NS + tns
+                    for rc in (0, etimedout):
+                        seen = {}
+
+                        def gettime(interp, args, node, S0=S0, N0=N0):
+                            seen['clock'] = args[0]
+                            ts = args[1]
+                            interp.store(ts.c, ts.k, {'tv_sec': S0, 'tv_nsec': N0})
+                            return 0
+
+                        def timedwait(interp, args, node, rc=rc):
+                            ts = args[2]
+                            v = interp.load(ts.c, ts.k)
+                            seen['ts'] = (v.get('tv_sec'), v.get('tv_nsec'))
+                            return rc
+                        it = pe.Interp([tu], {'clock_gettime': gettime, 'pthread_cond_timedwait': timedwait})
+                        it.cur_tu = tu
+                        try:
+                            ps = [p for p in it.explore(lambda: (fn, [unk('cond'), unk('mutex'), timeout], {})) if not p.aborted]
+                        except pe.PEError as e:
+                            raise AnalysisBroken('%s(now=%d.%09d, timeout=%d): %s' % (fn, S0, N0, timeout, e))
+                        inst = 'deadline[nsec=%d,timeout=%d,rc=%d]' % (N0, timeout, rc)
+                        if not chk.expect(len(ps) == 1 and 'ts' in seen and all(isinstance(x, int) for x in seen['ts']), 'R17.7', inst,
+                                          '%d paths, timespec %r' % (len(ps), seen.get('ts')), site):
+                            continue
+                        n += 1
+                        sec, nsec = seen['ts']
+                        want = S0 * NS + N0 + timeout
+                        ok = 0 <= nsec < NS and sec * NS + nsec == want
+                        chk.expect(ok, 'R17.7', inst,
+                                   'at %d.%09d s a timeout of %d ns gives the absolute deadline %d.%09d s%s; expected %d.%09d s - the waiter would '
+                                   'time out %s' % (S0, N0, timeout, sec, nsec, '' if 0 <= nsec < NS else ' (not a normalised timespec: EINVAL)',
+                                                    want // NS, want % NS, 'early' if sec * NS + nsec < want else 'late'), site)
+                        chk.expect(ps[0].ret == (0 if rc == etimedout else 1), 'R17.7', inst + ':result',
+                                   '%s returns %r when pthread_cond_timedwait returns %d' % (fn, ps[0].ret, rc), fn + ':result')
+    return n
 
 
 # ---- R17.6: bounded shape analysis of the list / map primitives --------------------------------------------
